@@ -52,6 +52,21 @@ def texts_for(entry, kind):
         unit = len(entry['lf'])
         extra.append('L' * (8192 // unit - 1) + nl + ' lead' + nl + 'end')
 
+    if len(entry['lf']) > 1 or entry['lf'] != b'\n':
+        # one unterminated line with a character whose encoding carries a
+        # raw 0x0A byte although it is not a line feed in this codec
+        for ch in ('\u4e0a', '\u040a', '\u0a0a', '\x8e'):
+            try:
+                b = codecs.getincrementalencoder(entry['canon'])()
+                b.encode('x')
+
+                if b'\n' in b.encode(ch) and \
+                        ch.encode(entry['canon']).decode(entry['canon']) == ch:
+                    extra.append('one line ' + ch)
+                    break
+            except UnicodeError:
+                pass
+
     return extra + [
         'a' + nl + 'b',
         'first line' + nl + rich + nl + '  indented ' + exotic + nl,
@@ -187,6 +202,9 @@ def program_for(case, name):
     if case['line_endings']:
         kw['line_endings'] = case['line_endings']
         dkw['line_endings'] = case['line_endings']
+
+    if case['indent']:
+        dkw['diff_type'] = 'binary'
 
     return {'encoding': 'utf-8', 'calls': [
         ['preamble', kw],
